@@ -889,6 +889,12 @@ class WebSocketProtocol13(WebSocketProtocol):
             return
         except ValueError:
             gen_log.debug("Malformed WebSocket request received", exc_info=True)
+            if self.stream is None:
+                # The handshake was not completed yet (e.g. invalid
+                # extension parameters): refuse it.
+                handler.set_status(400)
+                handler.finish("Malformed WebSocket request")
+                return
             self._abort()
             return
 
